@@ -343,6 +343,14 @@ func (c *child) exec(plan *Plan) *Result {
 		return &Result{Idx: plan.Idx, Verdict: "infra", Detail: "worker not accepting plans: " + err.Error() + "\n" + tail(c.stderr.String(), 2000)}
 	}
 	tick := time.NewTicker(250 * time.Millisecond)
+	var lastLook time.Time
+	var lastLookCPU time.Duration
+	stalls := 0
+	defer func() {
+		if stalls > 0 {
+			fmt.Fprintf(os.Stderr, "note: %d sandbox stall(s) discounted by the watchdog during plan %d\n", stalls, plan.Idx)
+		}
+	}()
 	defer tick.Stop()
 	for {
 		select {
@@ -373,6 +381,22 @@ func (c *child) exec(plan *Plan) *Result {
 			return &res
 		case <-tick.C:
 			cpu, ok := procCPU(c.cmd.Process.Pid)
+			// The sandbox itself can stall (a VM pause or snapshot): the next look
+			// then comes seconds late and the worker is charged CPU time no core
+			// delivered. Whatever happened between two looks that are more than 5 s
+			// apart (the ticker period is 250 ms), or that charged more CPU than 32
+			// cores could have delivered, is not the worker's doing: discount it.
+			if now := time.Now(); ok {
+				gap := now.Sub(lastLook)
+				if d := cpu - lastLookCPU; !lastLook.IsZero() && (gap > 5*time.Second || d > 32*gap+2*time.Second) {
+					cpu0 += d
+					lastCPU += d
+					lastMove = lastMove.Add(gap)
+					t0 = t0.Add(gap)
+					stalls++
+				}
+				lastLook, lastLookCPU = now, cpu
+			}
 			// the CPU budget is per journalled step (plan, or case within a
 			// plan), not per plan: a long enumeration that keeps making
 			// progress is not a hang
